@@ -204,19 +204,19 @@ theorem cables_view (nets : List ANet) (h : netsOKB nets = true) :
       have hf : cs[k].scalarFlag = true := hflag
       simp only [view05Cable, hname, hident, hl, hw, CCable.isArray, CCable.isScalar, hf, ANet.item, hanm]
       simp
-    | bit bi bn i =>
+    | bit bi bn i j =>
       have hbn : bn = nm := hn0name
       subst hbn
       have hnd : ((bitsOf bn (nets.map ANet.item)).map (·.1)).Nodup := by
         rw [bitsOf_items]; exact hbits _ hn0
       obtain ⟨c, hc, hne, _, hget, hlo, hrange, hhi⟩ :=
-        hany (ANet.item ⟨.bit bi bn i, pins⟩) (List.mem_map_of_mem hn0) i rfl hnd
+        hany (ANet.item ⟨.bit bi bn i j, pins⟩) (List.mem_map_of_mem hn0) i rfl hnd
       have hc' : busOf bn cs = some c := hc
       rw [hbus] at hc'
       have hcl : c.lo = cs[k].lower := by have := Option.some.inj hc'; exact (congrArg Bus.lo this).symm
       have hcw : c.ws = cs[k].wires := by have := Option.some.inj hc'; exact (congrArg Bus.ws this).symm
       have hbits' : bitsOf bn (nets.map ANet.item) = busBits bn nets := bitsOf_items bn nets
-      have hbits'' : bitsOf (ANet.item ⟨.bit bi bn i, pins⟩).name (nets.map ANet.item) = busBits bn nets := hbits'
+      have hbits'' : bitsOf (ANet.item ⟨.bit bi bn i j, pins⟩).name (nets.map ANet.item) = busBits bn nets := hbits'
       rw [hbits''] at hget hlo hrange hhi
       simp only [hcl, hcw] at hget hlo hrange hhi
       have hmin : minOf ((busBits bn nets).map (·.1)) = cs[k].lower :=
